@@ -3,7 +3,8 @@
    owning properties (C05 C06 C07 C11 C01); proofs: Proofs/C08.v, Proofs/C08_skel.v and the owners'. *)
 From Coq Require Import List NArith ZArith Bool.
 From GoMC Require Import Base.Bytes Base.Dec Gen.Consts Model.C01 Model.C05 Model.C06 Model.C07 Model.C11 Model.C08
-  Proofs.C06_more Proofs.C03 Proofs.C08 Proofs.C08_skel Props.C05 Props.C06 Props.C07 Props.C11.
+  Model.C08_inst Proofs.C06_more Proofs.C03 Proofs.C08 Proofs.C08_skel Proofs.C08_inst Proofs.C08_field
+  Proofs.C05 Proofs.C07 Proofs.C11_wire.
 Import ListNotations.
 Open Scope N_scope.
 
@@ -146,25 +147,112 @@ Proof. repeat split; vm_compute; reflexivity. Qed.
 Theorem C08_frame_total :
   forall (inflate : list N -> option (list N)) (thr : Z) (pool : list N) (old : rstate) (s : list N),
   ok_or_err (run_flat (Model.C07.unpack inflate thr pool old) s).
-Proof. exact C07_total. Qed.
+Proof. intros inflate. exact (Proofs.C07.unpack_total (fun x => x) inflate inflate). Qed.
 (* every packet field type and combinator, into any destination state (owner: C06) *)
 Theorem C08_field_no_panic : forall fuel t old s, not_panic (run_flat (read_f fuel t old) s).
-Proof. exact C06_no_panic. Qed.
+Proof. exact read_never_panics. Qed.
 Theorem C08_scan_no_panic : forall fuel fs s, not_panic (run_flat (Model.C06.scan fuel fs) s).
-Proof. exact C06_scan_no_panic. Qed.
+Proof. exact scan_never_panics. Qed.
 (* VarInt / VarLong (owner: C05) *)
 Theorem C08_varint_total : forall s,
   match run_flat read32 s with FOk (_, n) rest => n <= 5 /\ lenN s = n + lenN rest | FErr _ => True | _ => False end.
-Proof. exact C05_cap32. Qed.
+Proof. exact read32_cap. Qed.
 (* BitStorage.ReadFrom (owner: C11) *)
 Theorem C08_bitstorage_total : forall d s, ok_or_err (run_flat (bs_read d) s).
-Proof. exact C11_read_total. Qed.
+Proof. exact Proofs.C11_wire.read_total. Qed.
 (* NBT documents into interface{}, skipped, into dynbt (owners: C01 model, C03 proofs): with fuel above
    the input length a value or an error, and a value means input was consumed *)
 Theorem C08_nbt_any_total : forall fuel id s, (length s + 1 < fuel)%nat -> prog s (run_flat (dec_any fuel id) s).
 Proof. exact dec_any_prog. Qed.
 Theorem C08_nbt_skip_total : forall fuel id s, (length s + 1 < fuel)%nat -> prog s (run_flat (dec_skip fuel id) s).
 Proof. exact dec_skip_prog. Qed.
+
+
+(* ================================================================ phase 2: nothing abstract left *)
+
+(* the sub-decoders themselves (models of the owning properties C12 / C13 over C01, totality proved in
+   Proofs/C08_inst.v from C03, C05, C11): value or error on every input once fuel exceeds its length *)
+Theorem C08_palette_read_total : forall fuel c s, Proofs.C12.wfcfg (Model.C12.ccfg c) -> (length s < fuel)%nat ->
+  ok_or_err (run_flat (Model.C12.pc_read fuel c) s).
+Proof. exact c12_pc_read_total. Qed.
+Theorem C08_heightmap_decoder_total : forall fuel s, (length s < fuel)%nat ->
+  ok_or_err (run_flat (Model.C13.hm_read fuel) s).
+Proof. exact hm_read_total. Qed.
+Theorem C08_rawmessage_total : forall fuel old s, (length s < fuel)%nat ->
+  ok_or_err (run_flat (Model.C13.raw_body fuel old) s).
+Proof. exact raw_body_total. Qed.
+
+(* Chunk.ReadFrom with C13's height-map and RawMessage decoders and C12's PaletteContainer.ReadFrom in
+   place: for EVERY input, every state of the destination containers (any palette, any data; only the
+   registry widths 9..31 / 4..31 of their configuration are asked), every section count a slice can
+   have - a value or an error.  No hypothesis on any sub-decoder. *)
+Theorem C08_chunk_total_instantiated : forall fuel cs cb nsec s,
+  (forall i, Proofs.C12.wfcfg (Model.C12.ccfg (cs i))) -> (forall i, Proofs.C12.wfcfg (Model.C12.ccfg (cb i))) ->
+  N.of_nat nsec < 2^58 -> (length s < fuel)%nat ->
+  ok_or_err (run_flat (chunk_read_inst fuel cs cb nsec) s).
+Proof. exact chunk_total_inst. Qed.
+Theorem C08_put_data_total_instantiated : forall fuel cs cb nsec data s,
+  (forall i, Proofs.C12.wfcfg (Model.C12.ccfg (cs i))) -> (forall i, Proofs.C12.wfcfg (Model.C12.ccfg (cb i))) ->
+  (length data < fuel)%nat -> ok_or_err (run_flat (put_data_inst fuel cs cb nsec data) s).
+Proof. exact put_data_total_inst. Qed.
+Theorem C08_block_entity_total_instantiated : forall fuel j s, (length s < fuel)%nat ->
+  ok_or_err (run_flat (block_entity_inst fuel j) s).
+Proof. exact block_entity_total_inst. Qed.
+(* Registry[E].ReadFrom for every entry type E of C03's struct universe and every prior value *)
+Theorem C08_registry_total_instantiated : forall fuel ty cur s, (length s + 1 + Model.C03.sdepth ty < fuel)%nat ->
+  ok_or_err (run_flat (registry_read_inst fuel ty cur) s).
+Proof. exact registry_total_inst. Qed.
+
+Definition ex_states : Model.C12.pc :=
+  match Model.C12.pc_new (Model.C12.mkCfg Model.C12.KStates 15) 4096 0 with ROk c => c | RPanic _ => Model.C12.mkPC 0 (Model.C12.mkCfg Model.C12.KStates 15) Model.C12.PGlobal (mkBS [] 0 0 0 0) end.
+Definition ex_biomes : Model.C12.pc :=
+  match Model.C12.pc_new (Model.C12.mkCfg Model.C12.KBiomes 6) 64 0 with ROk c => c | RPanic _ => Model.C12.mkPC 0 (Model.C12.mkCfg Model.C12.KBiomes 6) Model.C12.PGlobal (mkBS [] 0 0 0 0) end.
+Example C08_ex_instantiated :
+  Proofs.C12.wfcfg (Model.C12.ccfg ex_states) /\ Proofs.C12.wfcfg (Model.C12.ccfg ex_biomes) /\
+  (* TAG_End for the height maps; one section: count, single-valued states and biomes; nothing else *)
+  (run_flat (chunk_read_inst 40 (fun _ => ex_states) (fun _ => ex_biomes) 1) [0; 8; 0;0; 0;0;0; 0;0;0; 0; 0;0;0;0;0;0] = FOk tt []) /\
+  (* a palette length of -1 inside the section data *)
+  (run_flat (chunk_read_inst 40 (fun _ => ex_states) (fun _ => ex_biomes) 1) [0; 9; 0;0; 4;255;255;255;255;15; 0; 0;0;0;0;0;0;0] = FErr Model.C12.eNegPal) /\
+  (* MOTION_BLOCKING given as a TAG_Long_Array of one long: wrong size *)
+  (run_flat (chunk_read_inst 60 (fun _ => ex_states) (fun _ => ex_biomes) 1)
+    [10; 12; 0;15; 77;79;84;73;79;78;95;66;76;79;67;75;73;78;71; 0;0;0;1; 0;0;0;0;0;0;0;5; 0; 0; 0; 0;0;0;0;0;0] = FErr eHeightMap).
+Proof. repeat split; try (vm_compute; intuition congruence); vm_compute; reflexivity. Qed.
+
+(* ================================================================ packet fields: no NoFuel either *)
+
+(* zero-width types (the empty Tuple, Opt with Has = false, and tuples/Opts of those) read nothing and
+   cannot fail; every other type consumes at least one byte when it succeeds: the split is exact *)
+Theorem C08_zero_width_exact : forall fuel t old s,
+  (zw t = true -> exists v, run_flat (read_f fuel t old) s = FOk (v, 0) s) /\ (zw t = false -> ary_ok t = true -> (length s < fuel)%nat -> prog s (run_flat (read_f fuel t old) s)).
+Proof. intros. split; [apply zero_width_reads_nothing|intros; apply field_consumes; assumption]. Qed.
+(* every field type in which no array has a zero-width element type (all the types the protocol uses):
+   a value or an error - not NoFuel - as soon as the fuel exceeds the input length, whatever the
+   declared counts; likewise Packet.Scan of any list of such fields *)
+Theorem C08_field_total : forall fuel t old s, ary_ok t = true -> (length s < fuel)%nat ->
+  ok_or_err (run_flat (read_f fuel t old) s).
+Proof. exact field_total. Qed.
+Theorem C08_scan_total : forall fuel fs s, forallb (fun f => ary_ok (fst f)) fs = true -> (length s < fuel)%nat ->
+  ok_or_err (run_flat (Model.C06.scan fuel fs) s).
+Proof. intros. apply (prog0_ok s). apply scan_total; assumption. Qed.
+(* the excluded shape really spins: an array of empty tuples runs its declared count without reading *)
+Theorem C08_field_spin_refuted : exists t old s, ary_ok t = false /\ (forall fuel, (fuel < 100)%nat -> run_flat (read_f fuel t old) s = FFuel) /\ length s = 1%nat.
+Proof.
+  exists (TAry LVarInt TUnit), (VList [] []), [100]. split; [reflexivity|]. split; [|reflexivity].
+  intros fuel Hf. do 100 (destruct fuel as [|fuel]; [vm_compute; reflexivity|]). exfalso. apply PeanoNat.Nat.ltb_lt in Hf. vm_compute in Hf. discriminate.
+Qed.
+Example C08_ex_field_types :
+  ary_ok (TAry LVarInt (TPair TString (TPair (TOption TByteArray) TUnit))) = true /\ ary_ok (TPair TBitSet (TAry LUByte (TAry LVarInt TVarInt))) = true /\ zw (TPair TUnit (TOpt false TString)) = true /\ zw (TOpt true TBool) = false.
+Proof. repeat split. Qed.
+
+(* ================================================================ Unicode white space *)
+(* trim_u is strings.TrimSpace on arbitrary bytes (validated against the standard library in the
+   correspondence run); on lines whose bytes are all below 0x80 the dispatcher model's ASCII trim IS
+   trim_u, so the dispatcher model is exact for ASCII lines *)
+Theorem C08_trim_ascii_exact : forall l, Forall (fun b => b < 128) l -> trim_u l = trim l.
+Proof. exact ascii_trim_exact. Qed.
+Example C08_ex_trim_unicode :
+  trim_u [32; 194;133; 226;128;138; 97; 32; 98; 227;128;128; 194;160; 9] = [97; 32; 98] /\ trim [194;133; 97] = [194;133; 97] /\ trim_u [194;133; 97] = [97] /\ trim_u [226;128;139; 97] = [226;128;139; 97].
+Proof. repeat split; vm_compute; reflexivity. Qed.
 
 Print Assumptions C08_dispatch.
 Print Assumptions C08_dispatch_fuel_irrelevant.
@@ -189,3 +277,15 @@ Print Assumptions C08_varint_total.
 Print Assumptions C08_bitstorage_total.
 Print Assumptions C08_nbt_any_total.
 Print Assumptions C08_nbt_skip_total.
+Print Assumptions C08_palette_read_total.
+Print Assumptions C08_heightmap_decoder_total.
+Print Assumptions C08_rawmessage_total.
+Print Assumptions C08_chunk_total_instantiated.
+Print Assumptions C08_put_data_total_instantiated.
+Print Assumptions C08_block_entity_total_instantiated.
+Print Assumptions C08_registry_total_instantiated.
+Print Assumptions C08_zero_width_exact.
+Print Assumptions C08_field_total.
+Print Assumptions C08_scan_total.
+Print Assumptions C08_field_spin_refuted.
+Print Assumptions C08_trim_ascii_exact.
